@@ -429,8 +429,8 @@ func resp3PairsToResp2(val respPairs) (a respArray) {
 	a = make(respArray, 0, len(val)*2)
 
 	for _, pair := range val {
-		a = append(a, pair.key)
-		a = append(a, pair.value)
+		a = append(a, resp3To2(pair.key))
+		a = append(a, resp3To2(pair.value))
 	}
 	return
 }
